@@ -61,7 +61,8 @@ pub fn main_aux(args: &[String]) -> i32 {
     let mut samples: Vec<Value> = vec![];
     {
         let f = std::fs::File::open(&sphere_cases).expect("sphere cases");
-        let embs = [(1.0, DVec3::ZERO), (0.37, DVec3::new(1.5, -2.25, 0.75)), (12.5, DVec3::new(-100.0, 40.0, 7.0))];
+        let embs = [(1.0, DVec3::ZERO), (0.37, DVec3::new(1.5, -2.25, 0.75)), (12.5, DVec3::new(-100.0, 40.0, 7.0)),
+            (2f64.powi(-30), DVec3::ZERO), (2f64.powi(30), DVec3::ZERO)];
         for line in std::io::BufReader::new(f).lines() {
             let line = line.unwrap();
             if line.trim().is_empty() {
